@@ -45,13 +45,27 @@ class BackendProxy:
     def get_yastn_dtype(self, x):
         return 'float64'
 
+    def bitwise_not(self, x):
+        """ NumPy's ~ on a boolean array is the element-wise negation; on an object array it would be Python's integer ~ """
+        if isinstance(x, np.ndarray) and x.dtype == object:
+            out = np.empty(x.shape, dtype=object)
+            flat_in, flat_out = x.ravel(), out.ravel()
+            for i, b in enumerate(flat_in):
+                flat_out[i] = (not b) if isinstance(b, (bool, np.bool_)) else Not(b)
+            return out
+        return self._b.bitwise_not(x)
 
-def make_S(V, profile, stem='v'):
+
+def make_S(V, profile, stem='v', signed=False):
     """ diagonal U1 tensor with sectors of the given sizes; returns (tensor, list of per-sector value lists) """
     from yastn.tensor import Tensor
     from yastn.tensor._auxiliary import _struct, _slc, _config
     import yastn.backend.backend_np as bnp
-    vals = [[V.real(f"{stem}{i}_{k}", lo=0) for k in range(d)] for i, d in enumerate(profile)]
+    vals = [[V.real(f"{stem}{i}_{k}", lo=None if signed else 0) for k in range(d)] for i, d in enumerate(profile)]
+    if signed:
+        for b in vals:
+            for x in b:
+                V.assume(x != 0)
     flat = [x for blk in vals for x in blk]
     stops = list(itertools.accumulate(profile))
     slices = tuple(_slc(((stop - d, stop),), (d, d), d) for stop, d in zip(stops, profile))
@@ -68,12 +82,19 @@ def make_S(V, profile, stem='v'):
     return Tensor(config=cfg, struct=struct, slices=slices, data=data), vals
 
 
-def h_truncation_mask(V, profile, dblock_form, dtotal_form):
+def h_truncation_mask(V, profile, dblock_form, dtotal_form, signed=False):
+    """
+    signed=True: weights of either sign with the tolerances switched off (negative tolerances), as eigh_with_truncation hands them over
+    for which='SR'/'SM' (negated values) or 'LR' on an indefinite spectrum -- limits and maximality must hold all the same
+    """
     from yastn.tensor.linalg import truncation_mask
-    S, vals = make_S(V, profile)
+    S, vals = make_S(V, profile, signed=signed)
     before = [list(b) for b in vals]
-    tol = V.real('tol', lo=0)
-    tol_block = V.real('tol_block', lo=0)
+    if signed:
+        tol, tol_block = -2.0, -2.0            # x > -2 * max|x| holds for every non-zero x: no tolerance binds
+    else:
+        tol = V.real('tol', lo=0)
+        tol_block = V.real('tol_block', lo=0)
     ns = len(profile)
     if dblock_form == 'inf':
         D_block = float('inf')
@@ -114,7 +135,8 @@ def h_truncation_mask(V, profile, dblock_form, dtotal_form):
     def vmax(xs):
         r = 0
         for x in xs:
-            r = Ite(x > r, x, r)
+            ax = Ite(x >= 0, x, -x)
+            r = Ite(ax > r, ax, r)
         return r
     kept_tot = sum(sum(1 for k in range(d) if m[i][k]) for i, d in enumerate(profile))
     # (i) limits
@@ -241,6 +263,9 @@ def units(tier):
             for dtf in ('inf', 'int'):
                 U.append(('h_truncation_mask', f"sectors={prof},D_block={dbf},D_total={dtf}",
                           dict(profile=prof, dblock_form=dbf, dtotal_form=dtf)))
+                if sum(prof) <= 3 or th:
+                    U.append(('h_truncation_mask', f"sectors={prof},D_block={dbf},D_total={dtf},signed-weights",
+                              dict(profile=prof, dblock_form=dbf, dtotal_form=dtf, signed=True)))
     for sym in (('Z2', 'U1', 'Z2xU1') if not th else ('Z2', 'Z3', 'U1', 'U1xU1', 'Z2xU1', 'U1xU1xZ2')):
         for nd, axis in ((1, 0), (2, 0), (2, 1), (3, 1)):
             for lt in (0, 1, 2) + ((3,) if th else ()):
